@@ -19,7 +19,7 @@ META = {
         'IC_PARTS_OF_SPEECH membership test; R3 the part-of-speech total is incremented once per (word, synset), outside the '
         'ancestor walk; R4 the weight is count/len(synsets) when distributing, else count, and unknown words are skipped; '
         'R5 _initialize gives every synset the smoothing value, folds satellites into adjectives and sets the totals; '
-        'R6 probability = weight / total of the part of speech and IC = -log(probability).'),
+        'R6 probability = weight / total of the part of speech and IC = -log(probability). R8 the ancestor walk stays in the given wordnet (C04-R7). R9 a synset on the walk that has no entry in the table - a placeholder inferred through an expand lexicon - is passed over, not indexed.'),
     'decides': ['once-per-node accumulation', 'POS folding before indexing', 'total incremented once', 'weight formula shape',
                 'initialisation', 'probability formula shape'],
     'not_decided': ['conservation / monotonicity as numeric facts', 'load() from WordNet::Similarity files (value level)'],
@@ -99,11 +99,23 @@ def r1_once_per_node(ctx, res):
                                     f'counted twice, contradicting "added to each ancestor once"')
             continue
         adds = [e for e in v.E if e.kind == 'call' and e.op == 'add' and e.lhs is not None and canon(e.lhs) == vis and e.rhs is not None
-                and canon(e.rhs) == popped and e.ctx == a.ctx and e.guards == a.guards]
+                and canon(e.rhs) == popped and e.ctx == a.ctx and set(e.guards) <= set(a.guards)]
         key = 'visited-recorded'
         res.inst(key, v.loc(a), f'{vis}.add({popped}) under the same guard')
         if not adds:
             res.find(key, v.loc(a), f'the popped synset is not added to the visited set `{vis}` on the path that counts it')
+        else:
+            # every synset that is visited is counted: the only further condition on the increment is "it has an entry in the
+            # table" (placeholders inferred through an expand lexicon have none)
+            import re as _re
+            from ..speccheck import short as _short
+            extra = [g for g in set(a.guards) - set(adds[0].guards)
+                     if not _re.fullmatch(_re.escape(_short(popped)) + r'\.id in #\d+\[.+\]', _short(g))]
+            key2 = 'visited-means-counted'
+            res.inst(key2, v.loc(a), f'conditions on the increment beyond the visit: {sorted(set(a.guards) - set(adds[0].guards))}')
+            if extra:
+                res.find(key2, v.loc(a), f'a visited synset is counted only under {sorted(extra)}: an ancestor for which that fails gets no '
+                                         f'weight (and, if the walk skips it, neither do the ancestors above it)')
         key = 'visited-per-start'
         news = [e for e in v.E if e.kind in ('new', 'store') and e.text.startswith(vis)]
         res.inst(key, v.loc(a), f'{vis} created in {[n.ctx for n in news][:2]}')
@@ -283,11 +295,34 @@ def r7_cache_purity(ctx, res):
             res.find(key, f.module.loc(f.node), 'compute() neither caches nor queries hypernyms')
 
 
-def r5_ancestor_walk_stays_in_the_wordnet(ctx, res):
+def r8_ancestor_walk_stays_in_the_wordnet(ctx, res):
     """compute() adds a word's weight to its hypernym ancestors IN THE GIVEN WORDNET: the synsets the walk reaches carry that
     Wordnet (C04-R7); one built without it continues through every installed lexicon."""
     from .c04 import r7_wordnet_handed_on
     r7_wordnet_handed_on(ctx, res)
+
+def r9_inferred_ancestors_passed_over(ctx, res):
+    """compute() accepts a wordnet with expand lexicons (docs/api/wn.ic.rst): a hypernym that exists only in the expand lexicon is
+    an *INFERRED* placeholder on the walk - not a synset of the wordnet, without an entry in the table _initialize built.  The
+    increment of a synset's weight is therefore guarded by `<synset>.id in freq[pos]` (indexing the table with the placeholder id
+    raises KeyError); the walk itself goes on through the placeholder."""
+    import re
+    from ..speccheck import view
+    v = view(ctx, 'ic', 'compute')
+    key = 'inferred-ancestors:passed-over'
+    augs = [r for r in v.rows if r[0] == 'aug' and re.match(r'^(#\d+)\[.+\]\[(.+)\.id\] \+= ', r[1])]
+    res.inst(key, v.loc(), f'{[(r[1][:60], sorted(r[2])[:2]) for r in augs]}')
+    if not augs:
+        res.find(key, v.loc(), 'compute() no longer increments the weight of the synsets on the ancestor walk')
+    for r in augs:
+        m = re.match(r'^(#\d+)\[(.+)\]\[(.+)\.id\] \+= ', r[1])
+        table, pos, syn = m.group(1), m.group(2), m.group(3)
+        want = f'{syn}.id in {table}[{pos}]'
+        if want not in r[2]:
+            res.find(key, v.loc(r[4]), f'compute() increments `{table}[..][{syn[:30]}.id]` without testing `{syn[:30]}.id in {table}[..]`: a '
+                                       f'hypernym inferred through an expand lexicon has no entry in the table - KeyError for any wordnet '
+                                       f'whose expand lexicon has a synset the wordnet itself lacks')
+
 
 RULES = [
     ('C15-R1', r1_once_per_node, 3),
@@ -297,5 +332,6 @@ RULES = [
     ('C15-R5', r5_initialize, 2),
     ('C15-R6', r6_probability, 2),
     ('C15-R7', r7_cache_purity, 1),
-    ('C15-R5', r5_ancestor_walk_stays_in_the_wordnet, 12),
+    ('C15-R8', r8_ancestor_walk_stays_in_the_wordnet, 12),
+    ('C15-R9', r9_inferred_ancestors_passed_over, 1),
 ]
